@@ -16,11 +16,11 @@ HaveEvent == l <= Len(T.events)
 Observable(A) == /\ HaveEvent /\ A /\ last'.ev # "none"
                  /\ last' = [ev |-> Ev.ev, id |-> Ev.id, caught |-> Ev.caught, cc |-> Ev.cc, exc |-> Ev.exc, t |-> Ev.t]
                  /\ l' = l + 1 /\ UNCHANGED tid
-Obs1 == Observable(Join) \/ Observable(Mark) \/ Observable(CancelOp) \/ Observable(Resched) \/ Observable(ShieldIn) \/ Observable(ShieldOut) \/ Observable(Enter)
+Obs1 == (\E f \in BOOLEAN : Observable(StartQ(TRUE, f))) \/ (\E f \in BOOLEAN : Observable(StartC(TRUE, f))) \/ Observable(Join) \/ Observable(Mark) \/ Observable(CancelOp) \/ Observable(Resched) \/ Observable(ShieldIn) \/ Observable(ShieldOut) \/ Observable(Enter)
 Obs2 == HaveEvent /\ (Observable(ExitNormal(Ev.cc)) \/ Observable(Unwind(Ev.caught, Ev.cc)))
 Obs3 == HaveEvent /\ (Observable(EndOk(Ev.id)) \/ Observable(EndCancelled))
 \* a join is silent when it is abandoned without the child's mark, observable (the child's "mark") otherwise
-Silent == (Sleep \/ (Join /\ last'.ev = "none")) /\ UNCHANGED <<tid, l>>
+Silent == (Sleep \/ (Join /\ last'.ev = "none") \/ (\E f \in BOOLEAN : StartC(FALSE, f)) \/ (\E f \in BOOLEAN : StartQ(FALSE, f)) \/ CancelQ) /\ UNCHANGED <<tid, l>>
 TNext == /\ (CaughtOnlyIfCancelled /\ UnwindHasCause /\ NoUnwindThroughShield) = TRUE
          /\ (Obs1 \/ Obs2 \/ Obs3 \/ Silent)
 
